@@ -15,9 +15,9 @@ def sh(cmd, cwd=None, timeout=3600, env=None):
     return p.returncode, p.stdout
 
 
-def confirm(pid, m, src=None):
+def confirm(pid, m, src=None, name=None):
     src = src or "/tmp/seed/out/%s/%s" % (pid, m)
-    wt = "/tmp/confirm_%s_%s" % (pid, m)
+    wt = "/tmp/confirm_%s_%s" % (pid, name or m)
     sh("git -C /repo worktree remove --force %s" % wt)
     rc, out = sh("git -C /repo worktree add --detach %s HEAD" % wt)
     assert rc == 0, out
@@ -37,7 +37,7 @@ def confirm(pid, m, src=None):
     finally:
         sh("git -C /repo worktree remove --force %s" % wt)
         sh("rm -rf %s" % wt)
-    dst = os.path.join(ROOT, "seeded", "%s_%s" % (pid, m))
+    dst = os.path.join(ROOT, "seeded", "%s_%s" % (pid, name or m))
     if ok:
         os.makedirs(dst, exist_ok=True)
         for f in ("patch.diff", "demo.py"):
@@ -82,5 +82,5 @@ def detect(name, checks=None):
 
 if __name__ == "__main__":
     if sys.argv[1] == "confirm":
-        sys.exit(0 if confirm(*sys.argv[2:5]) else 1)
+        sys.exit(0 if confirm(*sys.argv[2:6]) else 1)
     detect(sys.argv[2], sys.argv[3:] or None)
